@@ -25,6 +25,7 @@ W[("C01", "lone_dash_or_empty_word")] = {"op": "parse", "in": {"tree": T2, "word
 W[("C07", "lone_dash_or_empty_word")] = {"op": "parse", "in": {"tree": T2, "words": ["-", "-"]}}
 W[("C07", "subcommand_after_parent_flags")] = {"op": "parse", "in": {"tree": T1, "words": ["--loc", "v", ""]}}
 W[("C01", "shorthand_series_after_dash")] = {"op": "parse", "in": {"tree": T2, "words": ["--", "-c"]}}
+W[("C20", "complete_protocol_positional_from_dash_slot")] = {"op": "ccomplete", "in": {"tree": T2, "words": [""], "cobraSide": False}}
 lines = [json.dumps({"op": w["op"], "id": "%s#%s" % k, "in": w["in"]}) for k, w in W.items()]
 h = subprocess.run(['/verif/bin/harness', 'run'], input="\n".join(lines).encode(), stdout=subprocess.PIPE)
 d = subprocess.run(['/verif/bin/driver'], input=h.stdout, stdout=subprocess.PIPE)
